@@ -285,6 +285,11 @@ class Interp(object):
     # -- merge / links --------------------------------------------------------------------
     def op_merge(self, t, x, strict=True):
         t.merge(x, strict=strict)
+        if kind_of(t) == "sec" and kind_of(x) == "sec" and t is not x:
+            # remembered so that the generator can merge the same pair again later
+            pair = (self.U.index(t), self.U.index(x))
+            if pair not in self.U.merges:
+                self.U.merges.append(pair)
 
     def op_set_link(self, x, path):
         x.link = path
@@ -364,6 +369,27 @@ class Interp(object):
         ent = self.U.files[f % len(self.U.files)]
         doc = odml.load(ent["path"], ent["backend"])
         return {"new": self._reg(doc)}
+
+    def op_damage_file(self, f, how="version"):
+        """A storage fault on a file of the durable store (between a save and a later load)."""
+        if not self.U.files:
+            raise Skip("no file")
+        ent = self.U.files[f % len(self.U.files)]
+        with open(ent["path"], "rb") as fobj:
+            data = fobj.read()
+        if how == "version":
+            new = data.replace(b'version="1.1"', b'version="9.9"', 1) \
+                .replace(b'"odml-version": "1.1"', b'"odml-version": "9.9"', 1) \
+                .replace(b"odml-version: '1.1'", b"odml-version: '9.9'", 1)
+        elif how == "truncate":
+            new = data[:max(1, len(data) // 2)]
+        elif how == "empty":
+            new = b""
+        else:
+            new = data[:len(data) // 3] + b"\x00\xff garbage \x00" + data[len(data) // 3 + 12:]
+        with open(ent["path"], "wb") as fobj:
+            fobj.write(new)
+        return {"file": f % len(self.U.files), "changed": new != data}
 
     def op_restart(self, d, backend="xml", via="file"):
         """Save d, forget every in-memory object reachable from it, load the file
